@@ -36,37 +36,35 @@ def every(obj):
         return [obj]
 
 
+def _partition_like(x, stops):
+    if isinstance(x, PartitionedArray):
+        return x.repartition(stops)
+    elif isinstance(x, ak.layout.Content):
+        if len(x) == 1 and len(stops) != 0 and stops[-1] != 1:
+            # a length-1 array stands for a scalar: it broadcasts to every partition
+            return x
+        if len(stops) != 0 and len(x) != stops[-1]:
+            raise ValueError(
+                "cannot broadcast an array of length {0} with a partitioned array "
+                "of length {1}".format(len(x), stops[-1])
+                + ak._util.exception_suffix(__file__)
+            )
+        return IrregularlyPartitionedArray.toPartitioned(x, stops)
+    else:
+        return x
+
+
 def partition_as(sample, arrays):
     stops = sample.stops
     if isinstance(arrays, dict):
         out = {}
         for n, x in arrays.items():
-            if isinstance(x, PartitionedArray):
-                out[n] = x.repartition(stops)
-            elif isinstance(x, ak.layout.Content) and (
-                x.parameter("__array__") == "string"
-                or x.parameter("__array__") == "bytestring"
-            ):
-                out[n] = x
-            elif isinstance(x, ak.layout.Content):
-                out[n] = IrregularlyPartitionedArray.toPartitioned(x, stops)
-            else:
-                out[n] = x
+            out[n] = _partition_like(x, stops)
         return out
     else:
         out = []
         for x in arrays:
-            if isinstance(x, PartitionedArray):
-                out.append(x.repartition(stops))
-            elif isinstance(x, ak.layout.Content) and (
-                x.parameter("__array__") == "string"
-                or x.parameter("__array__") == "bytestring"
-            ):
-                out.append(x)
-            elif isinstance(x, ak.layout.Content):
-                out.append(IrregularlyPartitionedArray.toPartitioned(x, stops))
-            else:
-                out.append(x)
+            out.append(_partition_like(x, stops))
         return out
 
 
